@@ -87,6 +87,10 @@ def check(case):
     # blocking hang detection needs wall-clock time; 300 s for <= 12 trivial tasks is
     # two orders of magnitude above the cost even on a loaded machine
     with time_limit(300, "scheduler call with failing task", wall=True, sched=case["sched"]["kind"]):
+        # a case may carry its own history: earlier failing computations in the same process, run first (each is the
+        # subject of an earlier case of the enumeration; here they only set the stage, so the replay file is self-contained)
+        for kind in case.get("prelude", ()):
+            sc.for_each_schedule(dict(case, prelude=(), fail={k: [kind, v[1]] for k, v in case["fail"].items()}), lambda *a: None)
         sc.for_each_schedule(case, predicate)
 
 
@@ -191,6 +195,19 @@ def proc_case_unpicklable(draw):
     return c
 
 
+def hierarchy_cases(tier):
+    """A HISTORY of failing multiprocessing computations in one process (this sub-check runs serially, in order): exception
+    classes related by inheritance fail one after the other - base class first (ArithmeticError, then ZeroDivisionError;
+    InjectedError, then its subclass), subclass first (IndexError, then LookupError) - and each failure must still surface
+    as an instance of ITS type.  dask.multiprocessing caches one wrapper class per exception type."""
+    order = ["ArithmeticError", "ZeroDivisionError", "IndexError", "LookupError", "custom", "child", "samename", "ZeroDivisionError", "child", "ArithmeticError"]
+    shape = [{"kind": "task", "deps": []}, {"kind": "task", "deps": [0]}]
+    for rep in range(1 if tier == "quick" else 3):
+        for j, kind in enumerate(order):
+            yield {"graph": dags.dag_spec(shape, "legacy" if (j + rep) % 2 else "taskspec", "str"), "request": 1, "fail": {"0": [kind, msg_for(0)]}, "prelude": order[:j],
+                   "sched": {"kind": "processes", "workers": 1 + rep, "chunksize": 1, "optimize_graph": bool(rep % 2)}}
+
+
 SUBCHECKS = [
     Sub(
         "enum",
@@ -211,6 +228,17 @@ SUBCHECKS = [
         nontrivial=nontrivial,
         classes=classes,
         doc="random graphs and failing subsets on sync/controlled/threaded pools with micro-sleeps",
+    ),
+    Sub(
+        "processes-hierarchy",
+        check,
+        kind="enum",
+        cases=hierarchy_cases,
+        nontrivial=lambda case: True,
+        classes=classes,
+        exhaustive=True,
+        serial=True,
+        doc="a serial history of failing multiprocessing.get calls whose exception classes are related by inheritance (base first, subclass first, user subclass): every failure surfaces as an instance of its own type",
     ),
     Sub(
         "processes",
